@@ -39,6 +39,7 @@ def prove(tier, seed):
     tasks = IP.instances_C03(tier)
     records, wall = IP.run_instances(tasks, S)
     names = ["partial_transpose", "realignment"]
+    records += IP.frame_records(["partial_transpose", "realignment"])
     planted = selfcheck.planted("C03", tier, S)
     sc = selfcheck.standard(records, names)
     sc["planted_bugs_all_refuted"] = {"ok": planted["tried"] == planted["refuted"], "detail": planted}
@@ -96,6 +97,12 @@ def cases(tier, seed):
     for d in (2, 3, 4, 5):
         add("ptranspose.index", dict(sys=[1], rdims=[d, d], cdims=[d, d], sysform="list", dimform="omitted"), "partial_transpose/omitted")
         add("ptranspose.index", dict(sys=[0], rdims=[d, d], cdims=[d, d], sysform="int", dimform="omitted"), "partial_transpose/omitted")
+    for S in ([0], [1], [0, 1]):
+        add("frame.args", dict(fn="partial_transpose", sys=S, rdims=[2, 3], cdims=[3, 2]), "frame/partial_transpose")
+        add("frame.args", dict(fn="partial_transpose", sys=S, rdims=[2, 3, 2], cdims=[3, 2, 2]), "frame/partial_transpose")
+    add("frame.args", dict(fn="partial_transpose", sys=[1], rdims=[2, 3], cdims=[2, 3], dimform="1row-array"), "frame/partial_transpose")
+    for rd, cd in (([2, 3], [3, 2]), ([2, 2], [2, 2]), ([3, 2], [2, 4])):
+        add("frame.args", dict(fn="realignment", rdims=rd, cdims=cd), "frame/realignment")
     # realignment
     for dA, dB, dA2, dB2 in itertools.product([2, 3, 4], repeat=4):
         if dA * dB > 12 or dA2 * dB2 > 12:
